@@ -114,10 +114,10 @@ with chk_s (s : pstmt) : bool :=
 
 End Chk.
 
-(* the state after `insert_namespace_and_add_definitions` and `resolve_global_variables` *)
-Definition passes_state (ast : past) : option rstate :=
-  match (_ <- for_each insert_namespace_and_add_definitions ast ;;
-         for_each (fun m => resolve_global_variables (m_file m) (m_stmts m)) ast) (init_state ast) with
+(* the state after `insert_namespace_and_add_definitions` and the import pass (`fx`: repeated to a
+   fixpoint or not, Resolver.import_pass) *)
+Definition passes_state (fx : bool) (ast : past) : option rstate :=
+  match (_ <- for_each insert_namespace_and_add_definitions ast ;; import_pass fx ast) (init_state ast) with
   | Ok (_, st) => Some st
   | _ => None
   end.
@@ -129,8 +129,8 @@ Definition plain_in (st : rstate) (fid : N) (x : string) : bool :=
   | _ => false
   end.
 
-Definition no_ns_shadow (ast : past) : bool :=
-  match passes_state ast with
+Definition no_ns_shadow (fx : bool) (ast : past) : bool :=
+  match passes_state fx ast with
   | Some st => all_with (fun m => all_with (chk_s (binder_names ast) (plain_in st)) (m_stmts m)) ast
   | None => true         (* the namespace passes fail: rejected whatever the rule for `x.f` *)
   end.
